@@ -250,6 +250,21 @@ def rule_truncate_noop(ctx):
                   'the cut can be skipped for a requested length below the cached length (' + why +
                   '): the stale level entry of the final partial segment survives a reorganisation', loc=ctx.loc(f, r))
         n += 1
+    # the same decision spelt as a guarded cut: every condition on the cut must be `length < self.length` on the raw argument
+    for cut in [s for s in q.assigns(ctx, f, 'self.length')]:
+        for t_, b_, p_ in pr.control_conditions(cut, f.node):
+            if isinstance(p_, ast.With):
+                continue
+            cn = q.comparison_normal(ctx, f, t_ if b_ else ast.UnaryOp(op=ast.Not(), operand=t_))
+            rebound = [s for s in q.assigns(ctx, f, p) if s.lineno < p_.lineno]
+            okc = cn is not None and not rebound and (
+                (cn[1] == '>' and q.lin_eq(cn[0], {'self.length': 1, p: -1, '': 0})) or
+                (cn[1] == '<' and q.lin_eq(cn[0], {p: 1, 'self.length': -1, '': 0})))
+            ctx.check(okc, 'C12.ALIGN', ctx.key(f, cut, 'cut condition'),
+                      'the cut is made exactly when the requested length is below the cached length',
+                      f'the cut is conditional on `{norm(t_)}` ({"taken" if b_ else "not taken"}), which is not `{p} < self.length` on the '
+                      'requested length', loc=ctx.loc(f, cut))
+            n += 1
     # length and level are cut together
     ls = q.assigns(ctx, f, 'self.length')
     lv = [s for s in f.own_nodes() if isinstance(s, ast.Assign) and isinstance(s.targets[0], ast.Subscript)
@@ -407,9 +422,12 @@ def run(ctx):
     ctx.rule('C12.OWNCOPY', lambda: rule_own_copy(ctx), 1)
     ctx.rule('C12.FIELDS', lambda: rule_cache_fields(ctx), 2)
     ctx.rule('C12.INITFIRST', lambda: rule_init_first(ctx), 1)
+    ctx.rule('C12.STALELOCAL', lambda: rule_stale_local(ctx), 2)
+    from . import c11 as _c11
+    ctx.rule('C12.EXTEND', lambda: _c11.rule_extend(ctx), 5)
     ctx.rule('C12.INT', lambda: rule_int_all(ctx), 2)
     ctx.rule('C12.ONEAPPEND', lambda: rule_branch_loop(ctx), 7)
-    ctx.rule('C12.ALIGN', lambda: rule_align(ctx) + rule_truncate_noop(ctx), 4)
+    ctx.rule('C12.ALIGN', lambda: rule_align(ctx) + rule_truncate_noop(ctx), 3)
     ctx.rule('C12.TSCFORWARD', lambda: rule_tscforward(ctx), 5)
 
 
@@ -525,3 +543,61 @@ def rule_init_first(ctx, rule='C12.INITFIRST'):
               'the cache is consulted before initialize() may have run: ' + '; '.join(f'line {e.lineno} `{norm(e)[:50]}`' for e in early[:2]) +
               ' - computed with depth_higher == 0 / an empty level, then used after the wait', loc=ctx.loc(f, early[0] if early else f.node))
     return 1
+
+
+
+def rule_stale_local(ctx, rule='C12.STALELOCAL'):
+    """In MerkleCache.branch_and_root nothing derived from the cache's fields is carried across a suspension: another
+    request may extend the cache in place while this one waits (no truncation, so the epoch re-check does not help), and
+    _level_for() can return self.level itself.  Locals whose defining expression reads the cache (self.<field>, a helper
+    of the cache) must be used before the next suspension.  The epoch snapshot is exempt: being stale is its purpose."""
+    from ..suspend import Suspension
+    sus = Suspension(ctx)
+    f = ctx.func('merkle', 'MerkleCache.branch_and_root')
+    cfg = ctx.cfg(f)
+    d = df.defs(f)
+    epoch_snaps = {s_.targets[0].id for s_ in f.own_nodes() if isinstance(s_, ast.Assign) and isinstance(s_.targets[0], ast.Name)
+                   and ctx.res.canon(s_.value, f) == 'self.truncations'}
+    n = 0
+    susp_nodes = []
+    for m in cfg.g.nodes:
+        a = cfg.ast(m)
+        if a is not None and cfg.kind(m) not in ('with_exit', 'finally') and sus.stmt_suspends(a, f):
+            susp_nodes.append(m)
+    bad = []
+    for name, sites in d.items():
+        if name in epoch_snaps or name in f.params:
+            continue
+        for st, rhs in sites:
+            if rhs is None or not isinstance(st, ast.Assign):
+                continue
+            root = rhs.value if isinstance(rhs, ast.Await) else rhs
+            if isinstance(root, ast.Call):
+                root = root.func
+            while isinstance(root, ast.Attribute) and not (isinstance(root.value, ast.Name) and root.value.id == 'self'):
+                root = root.value
+            derived = isinstance(root, ast.Attribute) and isinstance(root.value, ast.Name) and root.value.id == 'self' \
+                and root.attr not in ('merkle', 'initialized', 'source_func')
+            if not derived:
+                continue
+            n += 1
+            dn = cfg.node(st)
+            for m in cfg.g.nodes:
+                a = cfg.ast(m)
+                if a is None or m == dn or cfg.kind(m) in ('with_exit', 'finally'):
+                    continue
+                from ..defassign import _loads
+                if not any(x.id == name for x in _loads(a)):
+                    continue
+                for sp in susp_nodes:
+                    if sp == dn or sp == m:
+                        continue
+                    alld = {cfg.node(s2) for s2, _r in sites}
+                    if cfg.find_path([dn], {sp}, avoiding=alld - {dn}) is not None and cfg.find_path([sp], {m}, avoiding=alld) is not None:
+                        bad.append(f'`{name}` (line {st.lineno}: {norm(rhs)[:40]}) is used at line {a.lineno} after the suspension at line {cfg.ast(sp).lineno}')
+                        break
+    ctx.check(not bad, rule, ctx.key(f, None, 'cache-derived locals not carried across a suspension'),
+              'every local computed from the cache is used before the next suspension point',
+              '; '.join(sorted(set(bad))[:2]) + ': another request can extend the cache in place meanwhile (_level_for may return '
+              'self.level itself), so the value no longer matches the length this request asked for', loc=ctx.loc(f, f.node))
+    return max(n, 1) + 1
